@@ -110,6 +110,71 @@ fn mutual_recursion_family() -> Vec<Vec<Tk>> {
     out
 }
 
+/// A word packed from two masked sources by one store (the shape solc gives short strings: a flag bit and the rest,
+/// or a byte and the rest) in a slot that is also accessed as a dynamic array, with one of the sources used a second
+/// time elsewhere; all orders of the three statements. Which of the two fields is registered first depends on the
+/// iteration order of the exported values.
+pub fn string_shape_family() -> Vec<Vec<u8>> {
+    let masks: [(U, U); 2] = [(U::ONE, U::from_u64(0xfe)), (U::from_u64(0xff), U::from_u64(0xff).not())];
+    let src = |k: usize| -> Vec<Tok> {
+        match k {
+            0 => vec![p(2), o(op::SLOAD)],
+            1 => vec![p(3), o(op::SLOAD)],
+            2 => vec![p(0x20), o(op::CALLDATALOAD)],
+            _ => vec![o(op::CALLER)],
+        }
+    };
+    let mut out = Vec::new();
+    for (ma, mb) in masks {
+        for (a, b) in [(0usize, 1usize), (1, 1), (2, 1), (3, 2), (1, 0)] {
+            for extra in [false, true] {
+                for array_write in [false, true] {
+                    // the statements
+                    let mut pack: Vec<Tok> = src(a);
+                    pack.extend([pu(ma), o(op::AND)]);
+                    pack.extend(src(b));
+                    pack.extend([pu(mb), o(op::AND), o(op::OR), p(1), o(op::SSTORE)]);
+                    let mut again: Vec<Tok> = src(b);
+                    again.extend([pu(mb), o(op::AND), p(9), o(op::SSTORE)]);
+                    let mut arr: Vec<Tok> = Vec::new();
+                    if array_write {
+                        arr.extend([p(0), o(op::CALLDATALOAD)]);
+                        arr.extend(arrkey(U::ONE));
+                        arr.extend([p(2), o(op::ADD), o(op::SSTORE)]);
+                    } else {
+                        arr.extend(arrkey(U::ONE));
+                        arr.extend([p(0), o(op::CALLDATALOAD), o(op::ADD), o(op::SLOAD), o(op::POP)]);
+                    }
+                    let mut stmts = vec![pack, arr];
+                    if extra {
+                        stmts.push(again);
+                    }
+                    let orders: Vec<Vec<usize>> = if stmts.len() == 2 {
+                        vec![vec![0, 1], vec![1, 0]]
+                    } else {
+                        vec![vec![0, 1, 2], vec![0, 2, 1], vec![1, 0, 2], vec![1, 2, 0], vec![2, 0, 1], vec![2, 1, 0]]
+                    };
+                    for ord in orders {
+                        let mut t: Vec<Tok> = Vec::new();
+                        for i in ord {
+                            t.extend(stmts[i].iter().cloned());
+                        }
+                        t.push(o(op::STOP));
+                        out.push(assemble(&t));
+                    }
+                }
+            }
+        }
+    }
+    out
+}
+
+/// The programs of the two families above as bytecode (C01 and C03 run them too: rendering a recursive slot type
+/// must neither overflow the native stack nor loop).
+pub fn recursive_type_programs() -> Vec<Vec<u8>> {
+    self_reference_family().into_iter().chain(mutual_recursion_family()).map(|s| expand(&s)).collect()
+}
+
 fn alphabet() -> Vec<Tk> {
     vec![
         Tk::Sload(0),
@@ -481,6 +546,12 @@ impl Check for C02 {
                     let code = expand(&seq);
                     let bound = if tier.thorough() { 2 } else { 1 };
                     explore_and_record(ctx, "self_reference_programs", &code, bound, 20_000, &|| json!({"tokens": format!("{seq:?}"), "bytes": hex(&code)}));
+                }
+                for (i, code) in string_shape_family().into_iter().enumerate() {
+                    if i % 16 != c {
+                        continue;
+                    }
+                    explore_and_record(ctx, "string_shaped_words", &code, 1, 20_000, &|| json!({"bytes": hex(&code)}));
                 }
             }
             Chunk::Evidence(c) => {
